@@ -10,6 +10,15 @@ circuit builders on each mutant in worker processes under catch_unwind and an ad
 Implementation oracle: panic / process death => violation; accepted with a circuit different from
 the well-formed one => violation. The Lean driver `p3r_driver_c15` evaluates the model
 `P3R.Shape.verifyUni` on the shape vector of the same mutants; outcome lines are compared.
+
+Batch path (round 2): five more honest bases — two circuit-prover proofs through
+`verify_p3_batch_proof_circuit` (`batch`: equal table heights, `batch-h`: different heights; lookups,
+preprocessed data, table metadata) and three proofs of plain AIRs through the generic
+`verify_batch_circuit` (`gbatch-1/2/4`: 1, 2, 4 instances, with / without preprocessed columns, next-row
+opening, public values, different degrees) — get the same complete enumeration; every mutant also yields a
+`batch …` driver line (shape vector + the AIR facts the real `RecursiveAir` methods return on the mutant's
+preprocessed width / lookups, harness/src/c15_batch.rs) and the model `P3R.Shape.verifyBatch` /
+`verifyP3Batch` (lean/P3R/Model/BatchShape.lean) must print the implementation's outcome.
 """
 import json, os
 
@@ -18,6 +27,11 @@ PROPERTY = "C15"
 CORRESPONDENCE = ("proof-shape control flow of verify_p3_uni_proof_circuit + FRI/MMCS circuit builders "
                   "(recursion/src/verifier/stark.rs, types/proof.rs, pcs/fri/{targets,verifier}.rs, pcs/mmcs.rs) "
                   "vs lean/P3R/Model/Shape.lean (verifyUni)")
+CORRESPONDENCE_BATCH = ("proof-shape control flow of verify_p3_batch_proof_circuit / verify_batch_circuit + "
+                        "BatchStarkVerifierInputsBuilder::allocate + BatchStarkProof::validate "
+                        "(recursion/src/verifier/batch_stark.rs, public_inputs.rs, types/proof.rs, "
+                        "circuit-prover/src/batch_stark_prover.rs) vs lean/P3R/Model/BatchShape.lean "
+                        "(verifyBatch / verifyP3Batch; FRI/MMCS part shared with Shape.lean)")
 
 
 def _read(p):
@@ -70,16 +84,27 @@ def run(ctx):
     while model and model[-1] == "":
         model.pop()
     disagreements = 0
+    reported = {"uni": 0, "batch": 0}
+    lines_by_kind = {}
+    outcome_by_base = {}
     for k in range(max(len(impl), len(model))):
         a = impl[k] if k < len(impl) else None
         b = model[k] if k < len(model) else None
+        case = cases[k] if k < len(cases) else ""
+        toks = case.split(" ", 2)
+        kind = "batch" if toks and toks[0] == "batch" else "uni"
+        lines_by_kind[kind] = lines_by_kind.get(kind, 0) + 1
+        if len(toks) > 1:
+            ob = outcome_by_base.setdefault(toks[1], {})
+            ob[str(a)] = ob.get(str(a), 0) + 1
         if a != b:
             disagreements += 1
-            if disagreements <= 3:
-                case = cases[k] if k < len(cases) else ""
+            if reported[kind] < 3:
+                reported[kind] += 1
+                corr = CORRESPONDENCE_BATCH if kind == "batch" else CORRESPONDENCE
                 violations.append({"class": "model-disagreement",
-                                   "what": f"correspondence {CORRESPONDENCE} no longer checks: impl={a!r} model={b!r}",
-                                   "replay": {"correspondence": CORRESPONDENCE, "case_line": case,
+                                   "what": f"correspondence {corr} no longer checks: impl={a!r} model={b!r}",
+                                   "replay": {"correspondence": corr, "case_line": case,
                                               "first_difference": [a, b]},
                                    "no_input": True})
     hist = dict(rep["hist"])
@@ -88,7 +113,7 @@ def run(ctx):
            "rule": "one real circuit-builder call (target allocation + verify_*_circuit + CircuitBuilder::build, in a worker "
                    "process under catch_unwind and an address-space limit) per structurally altered input; alterations = "
                    "ALL single alterations found by a generic walk over the serialised (proof, companion data, parameters) of "
-                   "4 honest bases (every list shortened by one / lengthened by one / emptied; every count, degree, size and "
+                   "9 honest bases (3 uni, 2 circuit-prover batch, 3 generic batch of plain AIRs + the uni cap-height-1 variant) (every list shortened by one / lengthened by one / emptied; every count, degree, size and "
                    "parameter integer set to 0, v-1, v+1, 28, 63, 64, usize::MAX (log_arity: ..7, 8, 255; degree_bits: +26, 27); "
                    "every optional part removed or added; booleans flipped) + seeded pairs of alterations; mutants the typed "
                    "proof cannot hold (fixed-size digests / extension elements) are counted as unrepresentable and not "
@@ -98,7 +123,9 @@ def run(ctx):
            "traces_validated_against_impl": len(impl), "disagreements_checked": disagreements,
            "enumerated_alterations": rep.get("enumerated_alterations"), "unrepresentable": rep.get("unrepresentable"),
            "pair_cases": rep.get("pair_cases"), "bases": rep.get("bases"),
-           "model_lines_uni_only": rep.get("model_lines"),
+           "model_lines": rep.get("model_lines"),
+           "model_lines_by_kind": lines_by_kind,
+           "model_outcomes_by_base": outcome_by_base,
            "violation_class_counts": rep.get("violation_classes"),
            "corpus_witnesses_reproduced": rep.get("corpus_witnesses_reproduced", []),
            "corpus_regression_cases_passed": rep.get("corpus_regressions_passed", []),
@@ -107,7 +134,7 @@ def run(ctx):
 
 
 CHECK = {
-    "lean_modules": ["P3R.Props.C15", "P3R.Witness.C15"],
+    "lean_modules": ["P3R.Props.C15", "P3R.Witness.C15", "P3R.Props.C15Batch", "P3R.Witness.C15Batch"],
     "lean_exes": ["p3r_driver_c15"],
     "theorems": [
         "P3R.C15.run_ok_iff", "P3R.C15.run_panic_iff", "P3R.C15.run_no_panic",
@@ -128,6 +155,25 @@ CHECK = {
         "P3R.Witness.C15.prep_short_panics", "P3R.Witness.C15.log_blowup_panics",
         "P3R.Witness.C15.query_dropped_accepted", "P3R.Witness.C15.cap_resized_accepted",
         "P3R.Witness.C15.witnesses_falsify_guards",
+        # batch path (Model/BatchShape.lean)
+        "P3R.C15Batch.allHold_of_verifyBatch", "P3R.C15Batch.allHold_of_verifyP3",
+        "P3R.C15Batch.batch_ok_counts", "P3R.C15Batch.batch_ok_instance", "P3R.C15Batch.batch_ok_lookup_commit",
+        "P3R.C15Batch.batch_ok_prep", "P3R.C15Batch.batch_ok_fri_validated", "P3R.C15Batch.batch_ok_zips",
+        "P3R.C15Batch.batch_no_panic_partial", "P3R.C15Batch.batchPanicGuards_necessary",
+        "P3R.C15Batch.batch_malformed_rejected_partial", "P3R.C15Batch.batch_wellformed_accepted",
+        "P3R.C15Batch.p3_ok_verifyBatch", "P3R.C15Batch.p3_ok_meta", "P3R.C15Batch.p3_no_panic_partial",
+        "P3R.C15Batch.p3PanicGuards_iff",
+        "P3R.C15Batch.batch_terminals_mismatch_err", "P3R.C15Batch.batch_instances_mismatch_err",
+        "P3R.C15Batch.p3_instances_mismatch_err", "P3R.C15Batch.honest_batch_shapes_ok",
+        "P3R.Witness.C15Batch.degree_bits_panics", "P3R.Witness.C15Batch.quotient_domain_panics",
+        "P3R.Witness.C15Batch.air_eval_panics", "P3R.Witness.C15Batch.log_arity_panics",
+        "P3R.Witness.C15Batch.cap_panics", "P3R.Witness.C15Batch.log_blowup_panics",
+        "P3R.Witness.C15Batch.airs_build_panics", "P3R.Witness.C15Batch.query_dropped_accepted",
+        "P3R.Witness.C15Batch.cap_resized_accepted", "P3R.Witness.C15Batch.free_degree_accepted",
+        "P3R.Witness.C15Batch.pinned_degree_rejected", "P3R.Witness.C15Batch.terminals_short_rejected",
+        "P3R.Witness.C15Batch.terminals_long_rejected", "P3R.Witness.C15Batch.instances_long_rejected",
+        "P3R.Witness.C15Batch.single_alterations_rejected", "P3R.Witness.C15Batch.no_panic_full_false",
+        "P3R.Witness.C15Batch.malformed_rejected_full_false", "P3R.Witness.C15Batch.witnesses_falsify_guards",
     ],
     "run": run,
     "trusted_base": [
@@ -136,15 +182,26 @@ CHECK = {
         "environment constants of the model (usize = 64 bits with overflow checks as in the dev profile the harness is built "
         "in, BabyBear bits = 31, two-adicity = 27, allocation bound 2^26 targets) are parameters of the theorems and "
         "fixed only in the driver lines",
-        "the batch-STARK builder (verify_p3_batch_proof_circuit / verify_batch_circuit) is exercised by the implementation "
-        "oracle only; its shape control flow is not modelled in Lean (FRI / MMCS parts are shared with the uni model)",
+        "batch path: the AIR facts of the batch model's environment (width, opens_trace_next, declares_interactions(pre_w), "
+        "get_log_num_quotient_chunks(pre_w, lookups[i])) are what the real RecursiveAir methods return for the mutant's common "
+        "data, called by the harness under catch_unwind (harness/src/c15_batch.rs; `-` = the AIR's eval panics); for the "
+        "circuit-prover path the three table AIRs are rebuilt from the mutant's metadata by a transcription of "
+        "batch_stark.rs:220-249 (`airsBuild` = no panic) — the arithmetic inside the AIR constructors is not modelled",
+        "batch path: the `tag` of a batch driver line (hash of the lookup contexts) only takes part in the same/different "
+        "comparison of accepted shapes",
     ],
     "assumptions": [
         "AIR-dependent step: an AIR that declares preprocessed width w indexes w preprocessed columns in eval "
         "(true of the harness AIR transcribed from recursion/tests/common MulAir); the uni verifier evaluates the AIR with the "
         "proof's width before validating it",
         "non-ZK TwoAdicFriPcs with Merkle-tree MMCS (arity 2), extension degree 4, all matrices of one round of the "
-        "uni-STARK share the trace height (single height group); hiding PCS / arity-4 MMCS / WHIR shapes are not enumerated",
+        "uni-STARK share the trace height (single height group; the batch bases exercise several heights per round with the same "
+        "step lists); hiding PCS / arity-4 MMCS / WHIR shapes are not enumerated",
+        "batch path: non-ZK PCS (config.is_zk() = 0), LogUp gadget with 2 challenges, TRACE_D = 1, no non-primitive tables "
+        "(numProvers = 0: a manifest entry is rejected by the count check; the op-type / batch_air_from_table_entry step is the "
+        "environment Boolean npoEntriesOk); `degree_bits[i]` of an instance without preprocessed metadata is the prover's "
+        "declared trace height (native validate_degree_bits accepts every in-range value), so an accepted change of it is "
+        "the well-formed circuit for that height and not a violation (counted in the histogram); a pinned one is",
         "fixes C15-1/2/3 applied: F9b, F9c, F9j, F9k, F9l, F9o (and the overflow part of F9i, the degree+1 part of F9a) are "
         "repaired; their corpus cases are regression cases (expect_outcome = err) and a return is a VIOLATION "
         "(class regression:<id>, plus the unlisted panic class, plus a model disagreement for the modelled ones)",
@@ -172,10 +229,19 @@ MANIFEST_ENTRY = {
                 "full statements (never panics / every malformed shape rejected) are refuted on concrete witnesses replayed on "
                 "the real code (10 known findings with fixes C15-1/2/3 applied; the repaired ones are proved rejected "
                 "for every shape: fri_pow_mismatch_err, fri_height_overflow_err, open_input_height_err); model tied to the Rust by outcome-exact comparison on every single "
-                "alteration of 3 uni bases and on seeded pairs; batch-STARK builder judged on the real code only",
+                "alteration of 3 uni bases and on seeded pairs; batch path modelled (Model/BatchShape.lean: verify_p3_batch_proof_circuit "
+                "metadata validation + allocate + verify_batch_circuit, generic in the AIRs' facts): accepted => instance / degree / "
+                "terminal / lookup / metadata counts equal the AIR count, every per-instance opening has its expected length, "
+                "preprocessed metadata pins matrix index, width and degree, every named zip has equal sides (batch_ok_*), no panic "
+                "under BatchPanicGuards (each guard shown necessary by a witness), F9j/F9k/F9l proved rejected for every shape, conversely "
+                "every shape with the expected STARK-layer components whose PCS part passes is accepted (batch_wellformed_accepted), honest "
+                "shapes accepted; tied to the Rust by outcome-exact comparison on every single alteration of 5 batch bases "
+                "(2 circuit-prover, 3 generic: 1/2/4 instances, with/without preprocessed data, lookups, next-row opening) and on pairs",
         "design_ref": "4/C15",
     },
     "level_note": "Lean kernel + 3 standard axioms; the model is a hand transcription of the builders' shape-dependent "
-                  "statements (order included) and covers the uni-STARK path; batch path not modelled; overflow panics are "
-                  "profile dependent (dev profile observed)",
+                  "statements (order included) and covers the uni-STARK path and the batch path (batch path modelled with the "
+                  "AIRs' symbolic-evaluation results and the AIR reconstruction from table metadata as environment facts "
+                  "supplied by the real code; non-primitive tables, ZK PCS and the AIR constructors' arithmetic not modelled); "
+                  "overflow panics are profile dependent (dev profile observed)",
 }
